@@ -220,9 +220,29 @@ def valueAt (fo : FloatOps) (c : WinCall) (ord : List Info) (p : Nat) (cur : Inf
     let f ← frame ()
     aggVal fo fn false f.length (f.map arg0)
 
+/-- what the binder / planner check before any row is looked at: argument count, literal arguments in range, frame bound kinds -/
+def checkCall (c : WinCall) : Except Err Unit := do
+  if !arityOk c.fn c.args.length then throw (.bad "wrong number of arguments for window function")
+  match c.fn with
+  | .ntile => do
+    let b ← litInt "NTILE bucket count" c.args[0]?
+    if b ≤ 0 then throw (.bad "NTILE bucket count must be positive")
+  | .lag | .lead => do
+    let off ← if c.args.length ≥ 2 then litInt "LAG/LEAD offset" c.args[1]? else pure 1
+    if off < 0 then throw (.bad "LAG/LEAD offset must be non-negative")
+  | .nthValue => do
+    let k ← litInt "NTH_VALUE position" c.args[1]?
+    if k ≤ 0 then throw (.bad "NTH_VALUE position must be positive")
+  | _ => pure ()
+  match c.frame with
+  | some f =>
+    if f.start == .unboundedFollowing then throw (.bad "frame cannot start at UNBOUNDED FOLLOWING")
+    if f.stop == .unboundedPreceding then throw (.bad "frame cannot end at UNBOUNDED PRECEDING")
+  | none => pure ()
+
 /-- one output column (in input order) for one call -/
 def evalCall (cx : EvalCtx) (env : Env) (c : WinCall) (rows : Table) : Except Err (List Val) := do
-  if !arityOk c.fn c.args.length then throw (.bad "wrong number of arguments for window function")
+  checkCall c
   let infos ← rows.zipIdx.mapM fun (r, i) => do
     let pk ← evalList cx (r :: env) c.partition
     let ok ← evalList cx (r :: env) (c.order.map (·.e))
